@@ -234,8 +234,7 @@ def check_cli(case):
             evals += 1
             e = proc.run_cli(["explain", "--view", v, "--format", "json"] + extra, cwd=base)
             try:
-                i = e["stdout"].find("{")
-                got = {m["name"] for m in json.loads(e["stdout"][i:])["merchants"]} if i >= 0 else set()
+                got = {m["name"] for m in proc.json_document(e["stdout"])["merchants"]} if "{" in e["stdout"] else set()
             except Exception as ex:  # noqa
                 got = f"unreadable explain output: {ex}"
             want = {m for m in want_ref[v] if keep is None or cats[m] == keep}
